@@ -281,3 +281,57 @@ Definition call_wire (c : scall) : bytes :=
   | CSend m => match wire m with Some w => w | None => [] end
   | CFlush => []
   end.
+
+(* ---- the property text for one session, as a check over per-call results ---------- *)
+Fixpoint is_prefix_of (p s : bytes) : bool :=
+  match p, s with
+  | [], _ => true
+  | x :: p', y :: s' => (x =? y)%N && is_prefix_of p' s'
+  | _, [] => false
+  end.
+
+(* The calls of one session, in order, with the log before them:
+   - a Send's accepted bytes are the message's encoding if it returned nil, a prefix of it otherwise;
+   - a Flush that returned nil leaves a successful writer flush after the last Write;
+   - every call returns the first error the writer answered during it (nil if none). *)
+Fixpoint calls_ok (before : list wcall) (calls : list scall) (rs : list cres) : bool :=
+  match calls, rs with
+  | [], [] => true
+  | c :: calls', (e, seg) :: rs' =>
+      (e =? first_error seg)%N &&
+      match c with
+      | CSend m =>
+          match wire m with
+          | Some w => if (e =? 0)%N then bytes_eqb (accepted seg) w else is_prefix_of (accepted seg) w
+          | None => false
+          end
+      | CFlush =>
+          bytes_eqb (accepted seg) [] && (if (e =? 0)%N then flushed false (before ++ seg) else true)
+      end &&
+      calls_ok (before ++ seg) calls' rs'
+  | _, _ => false
+  end.
+
+Definition session_ok (calls : list scall) (rs : list cres) : bool :=
+  match urun UNone (full_log rs) with Some _ => true | None => false end && calls_ok [] calls rs.
+
+
+(* the k-th Write/Flush recorded in a log was answered by the k-th verdict of the script
+   (no verdict left = the call succeeds); a writer reached through plain Flush() reports nothing *)
+Definition verdict_eqb (a b : wverdict) : bool :=
+  match a, b with
+  | WOk, WOk => true
+  | WFail k e, WFail k' e' => (k =? k') && (e =? e')%N
+  | _, _ => false
+  end.
+Definition flush_outcome (reports : bool) (v : wverdict) : N :=
+  match v with WFail _ e => if reports then e else 0%N | WOk => 0%N end.
+Fixpoint plays (reports : bool) (l : list wcall) (script : list wverdict) : bool :=
+  match l with
+  | [] => true
+  | LWrite _ v :: r => verdict_eqb v (hd WOk script) && plays reports r (tl script)
+  | LFlush e :: r => (e =? flush_outcome reports (hd WOk script))%N && plays reports r (tl script)
+  | _ :: r => plays reports r script
+  end.
+Definition is_op (c : wcall) : bool := match c with LWrite _ _ | LFlush _ => true | _ => false end.
+Definition nops (l : list wcall) : nat := length (filter is_op l).
